@@ -138,11 +138,11 @@ def grep_audit():
     return bad
 
 
-def axiom_audit(prop, theorems):
+def axiom_audit(prop, theorems, extra_imports=()):
     """#print axioms on every property theorem; returns {theorem: [axioms]}."""
     os.makedirs(os.path.join(LEAN, "Audit"), exist_ok=True)
     path = os.path.join(LEAN, "Audit", prop + ".lean")
-    body = "import PortusModel.Props.%s\n" % prop + "".join("#print axioms %s\n" % t for t in theorems)
+    body = "import PortusModel.Props.%s\n" % prop + "".join("import %s\n" % m for m in extra_imports) + "".join("#print axioms %s\n" % t for t in theorems)
     if not os.path.exists(path) or open(path).read() != body:
         open(path, "w").write(body)
     with Lock("lake"):
